@@ -37,16 +37,27 @@ QUICK_FIELDS = ["gf25519", "gfp256", "sc25519", "gf448"]
 
 def drivers(tier, only):
     ds = []   # (Driver, what, status_outs)
-    fields = [f for f in F.FIELDS if (tier == "thorough" or f.tag in QUICK_FIELDS) and (not only or f.tag in only)]
+    fields = [f for f in F.FIELDS if (tier == "thorough" or f.tag in QUICK_FIELDS or (only and f.tag in only)) and (not only or f.tag in only)]
     for f in fields:
         L = f.enc_len
         for n in (0, L - 1, L, L + 1):
             ds.append((Driver("drv_t_%s_decode_%d" % (f.tag, n), [("buf", "in", 1, n), ("st", "out", 4, 1)],
                               "        st[0] = match <%s>::decode(&buf[..]) { Some(_) => 1, None => 0 };" % f.rust),
                        "%s::decode (Option), %d bytes" % (f.rust, n), []))
-    curves = [c for c in CURVES if (tier == "thorough" or c in QUICK_CURVES) and (not only or c in only)]
+    curves = [c for c in CURVES if (tier == "thorough" or c in QUICK_CURVES or (only and c in only)) and (not only or c in only)]
+    # quick tier: the remaining curves are posed at the wrong lengths only (the length checks of the
+    # slice-taking decoders, where a panic is one misplaced slice expression away)
+    wrong_only = {}
+    if tier == "quick" and not only:
+        for c in CURVES:
+            if c not in curves:
+                L = {"ed448": 57, "decaf448": 56, "secp256k1": None}.get(c, 32)
+                wrong_only[c] = [n for n in CURVES[c][1] if n != L and n not in (33, 65)] if L else [0, 1, 32, 64, 66]
+        curves = curves + list(wrong_only)
     for c in curves:
         mod, lens, haspk, hasecdh, hash2c, owm = CURVES[c]
+        if c in wrong_only:
+            lens = wrong_only[c]
         for n in lens:
             ds.append((Driver("drv_t_%s_pdecode_%d" % (c, n), [("buf", "in", 1, n), ("st", "out", 4, 1)],
                               "        let mut p = %s::Point::NEUTRAL;\n        let r = p.set_decode(&buf[..]);\n"
@@ -59,6 +70,8 @@ def drivers(tier, only):
                 ds.append((Driver("drv_t_%s_pkdecode_%d" % (c, n), [("buf", "in", 1, n), ("st", "out", 4, 1)],
                                   "        st[0] = match %s::PublicKey::decode(&buf[..]) { Some(_) => 1, None => 0 };" % mod),
                            "%s::PublicKey::decode, %d bytes" % (mod, n), []))
+        if c in wrong_only:
+            continue
         if hasecdh:
             for n in (0, 31, 32, 33):
                 ds.append((Driver("drv_t_%s_ecdh_%d" % (c, n),
